@@ -9,6 +9,9 @@
   slot variables, and dead code (after br / br_table / return / unreachable nothing is emitted
   until the enclosing construct ends).  The numeric instructions are dispatched through the
   table regenerated from c.c (`Gen.emitTable`); load/store names through `Gen.loadTable`.
+  The model is STRICT: where c.c relies on the module being valid (operand types, block results,
+  never popping below the enclosing block) the model checks that assumption and fails otherwise;
+  the real translator's behaviour on invalid modules is outside every property.
   Output is the structured target language `MiniC`, which `Model.Render` prints token by token
   (tied to the real w2c2 by the `emit-tokens` correspondence) and `Model.MiniCSem` executes.
 -/
@@ -103,6 +106,8 @@ def St.top (s : St) (k : Nat) : Option Slot :=
   else none
 def St.push (s : St) (t : VT) : St := { s with stack := s.stack ++ [t] }
 def St.drop (s : St) (n : Nat) : St := { s with stack := s.stack.take (s.stack.length - n) }
+/-- height of the innermost label: valid code never pops below it -/
+def St.base (s : St) : Nat := match s.labels.getLast? with | some l => l.height | none => 0
 /-- label `l` counted from the innermost -/
 def St.label (s : St) (l : Nat) : Option Label :=
   if l < s.labels.length then s.labels[s.labels.length - 1 - l]? else none
@@ -116,7 +121,8 @@ def gotoCopy (s : St) (lab : Label) : Option (St × Option (Slot × Slot)) :=
     match s.top 0 with
     | none => none
     | some src =>
-      if lab.height ≠ src.idx then
+      if src.ty ≠ rt ∨ src.idx < lab.height then none      -- invalid module: carried value has another type
+      else if lab.height ≠ src.idx then
         some (s.declare ⟨rt, lab.height⟩, some (⟨rt, lab.height⟩, src))
       else some (s, none)
 
@@ -138,13 +144,17 @@ def compileSeq (ctx : Ctx) (s : St) : List EInstr → Except Err (St × List MSt
 def compileInstr (ctx : Ctx) (s : St) : EInstr → Except Err (St × List MStmtC × Bool)
   | .nop => .ok (s, [], false)
   | .unreachable => .ok (s, [.unreachable], true)
-  | .drop => .ok (s.drop 1, [], false)
+  | .drop =>
+    if s.height < s.base + 1 then .error "drop: pops below the enclosing label (invalid module)" else
+    .ok (s.drop 1, [], false)
   | .select => do
     let some s0 := s.top 0 | .error "select: stack"
     let some s1 := s.top 1 | .error "select: stack"
     let some s2 := s.top 2 | .error "select: stack"
     let rt := s1.ty
     let dst : Slot := ⟨rt, s2.idx⟩
+    if s0.ty ≠ .i32 ∨ s2.ty ≠ s1.ty then .error "select: operand types (invalid module)" else
+    if s.height - 3 < s.base then .error "select: pops below the enclosing label (invalid module)" else
     .ok (((s.declare dst).drop 3).push rt, [.select dst s0 s2 s1], false)
   | .const t bits =>
     let s' := s.push t
@@ -155,16 +165,20 @@ def compileInstr (ctx : Ctx) (s : St) : EInstr → Except Err (St × List MStmtC
     let some s0 := s.top 0 | .error "numeric: stack"
     match k with
     | .unary rt _ _ =>
+      if s.height < s.base + 1 then .error "numeric: pops below the enclosing label (invalid module)" else
       .ok (((s.declare ⟨rt, s0.idx⟩).drop 1).push rt, [.num opcode k s0.ty s0.idx s0.ty s0.idx], false)
     | .infix rt _ _ | .prefixBinary rt _ => do
       let some s1 := s.top 1 | .error "numeric: stack"
+      if s.height < s.base + 2 then .error "numeric: pops below the enclosing label (invalid module)" else
       .ok (((s.declare ⟨rt, s1.idx⟩).drop 2).push rt, [.num opcode k s1.ty s1.idx s0.ty s0.idx], false)
     | .signedInfix _ => do
       let some s1 := s.top 1 | .error "numeric: stack"
       let some rt := lookupVT Gen.opcodeResultType opcode | .error "no result type"
+      if s.height < s.base + 2 then .error "numeric: pops below the enclosing label (invalid module)" else
       .ok (((s.declare ⟨rt, s1.idx⟩).drop 2).push rt, [.num opcode k s1.ty s1.idx s0.ty s0.idx], false)
     | .shl | .shrS | .shrU => do
       let some s1 := s.top 1 | .error "numeric: stack"
+      if s.height < s.base + 2 then .error "numeric: pops below the enclosing label (invalid module)" else
       .ok ((s.declare s1).drop 1, [.num opcode k s1.ty s1.idx s0.ty s0.idx], false)
   | .localGet i => do
     let some t := ctx.localTypes[i]? | .error "local index"
@@ -174,10 +188,12 @@ def compileInstr (ctx : Ctx) (s : St) : EInstr → Except Err (St × List MStmtC
   | .localSet i => do
     let some t := ctx.localTypes[i]? | .error "local index"
     let some s0 := s.top 0 | .error "local.set: stack"
+    if s0.ty ≠ t ∨ s.height < s.base + 1 then .error "local.set: operand type / pops below label (invalid module)" else
     .ok ((s.declare ⟨t, s0.idx⟩).drop 1, [.localSet i ⟨t, s0.idx⟩], false)
   | .localTee i => do
     let some t := ctx.localTypes[i]? | .error "local index"
     let some s0 := s.top 0 | .error "local.tee: stack"
+    if s0.ty ≠ t ∨ s.height < s.base + 1 then .error "local.tee: operand type (invalid module)" else
     .ok (s.declare ⟨t, s0.idx⟩, [.localSet i ⟨t, s0.idx⟩], false)
   | .globalGet g => do
     let some t := ctx.globalTypes[g]? | .error "global index"
@@ -225,30 +241,36 @@ def compileInstr (ctx : Ctx) (s : St) : EInstr → Except Err (St × List MStmtC
     let h := s.height
     let lab : Label := ⟨s.next, h, bt⟩
     let sIn := { s with labels := s.labels ++ [lab], next := s.next + 1 }
-    let (sB, outB, _) ← compileSeq ctx sIn body
+    let (sB, outB, deadB) ← compileSeq ctx sIn body
+    if !deadB && sB.stack ≠ (s.stack ++ bt.toList) then .error "block: body does not leave the block type (invalid module)" else
     let sEnd := { sB with stack := (sB.stack.take h) ++ bt.toList, labels := s.labels }
     .ok (sEnd, [.block outB lab.index], false)
   | .loop bt body => do
     let h := s.height
     let lab : Label := ⟨s.next, h, none⟩       -- NOTE in c.c: the loop label carries no result type
     let sIn := { s with labels := s.labels ++ [lab], next := s.next + 1 }
-    let (sB, outB, _) ← compileSeq ctx sIn body
+    let (sB, outB, deadB) ← compileSeq ctx sIn body
+    if !deadB && sB.stack ≠ (s.stack ++ bt.toList) then .error "loop: body does not leave the block type (invalid module)" else
     let sEnd := { sB with stack := (sB.stack.take h) ++ bt.toList, labels := s.labels }
     .ok (sEnd, [.loop lab.index outB], false)
   | .ite bt thn els => do
     let some c := s.top 0 | .error "if: stack"
+    if c.ty ≠ .i32 ∨ s.height < s.base + 1 then .error "if: condition type / pops below label (invalid module)" else
     let s0 := s.drop 1
     let h := s0.height
     let lab : Label := ⟨s0.next, h, bt⟩
     let sIn := { s0 with labels := s0.labels ++ [lab], next := s0.next + 1 }
-    let (sT, outT, _) ← compileSeq ctx sIn thn
+    let (sT, outT, deadT) ← compileSeq ctx sIn thn
+    if !deadT && sT.stack ≠ (s0.stack ++ bt.toList) then .error "if: then-branch does not leave the block type (invalid module)" else
     match els with
     | none =>
+      if bt.isSome then .error "if: result type without else (invalid module)" else
       let sEnd := { sT with stack := (sT.stack.take h) ++ bt.toList, labels := s.labels }
       .ok (sEnd, [.ifElse c outT none lab.index], false)
     | some els => do
       let sE0 := { sT with stack := sT.stack.take h }
-      let (sE, outE, _) ← compileSeq ctx sE0 els
+      let (sE, outE, deadE) ← compileSeq ctx sE0 els
+      if !deadE && sE.stack ≠ (s0.stack ++ bt.toList) then .error "if: else-branch does not leave the block type (invalid module)" else
       let sEnd := { sE with stack := (sE.stack.take h) ++ bt.toList, labels := s.labels }
       .ok (sEnd, [.ifElse c outT (some outE) lab.index], false)
   | .br l => do
@@ -257,12 +279,14 @@ def compileInstr (ctx : Ctx) (s : St) : EInstr → Except Err (St × List MStmtC
     .ok (s', [.goto cp lab.index], true)
   | .brIf l => do
     let some c := s.top 0 | .error "br_if: stack"
+    if c.ty ≠ .i32 ∨ s.height < s.base + 1 then .error "br_if: condition type / pops below label (invalid module)" else
     let s0 := s.drop 1
     let some lab := s0.label l | .error "br_if: label"
     let some (s', cp) := gotoCopy s0 lab | .error "br_if: stack"
     .ok (s', [.ifGoto c cp lab.index], false)
   | .brTable ls d => do
     let some c := s.top 0 | .error "br_table: stack"
+    if c.ty ≠ .i32 ∨ s.height < s.base + 1 then .error "br_table: condition type / pops below label (invalid module)" else
     let s0 := s.drop 1
     let step (acc : Except Err (St × List (Option (Slot × Slot) × Nat))) (l : Nat) :
         Except Err (St × List (Option (Slot × Slot) × Nat)) := do
